@@ -292,9 +292,10 @@ def cases(rng, scale=1):
     add('c_mod_long', BL, BL)
     add('c_div_ll', BL, BL)
     add('c_divmod_ss', BL, BL)
-    add('c_abs_int', B)
-    add('c_abs_long', BL)
-    add('c_abs_ll', BL)
+    # abs(MIN) does not fit the C type by construction (user-requested C arithmetic): not generated
+    add('c_abs_int', [b for b in B if b != '-2**31'])
+    add('c_abs_long', [b for b in BL if b != '-2**63'])
+    add('c_abs_ll', [b for b in BL if b != '-2**63'])
     add('c_neg_long', BL)
     for f in ('to_char', 'to_uchar', 'to_short', 'to_ushort', 'to_int', 'to_uint', 'to_long', 'to_ulong', 'to_ll', 'to_ull', 'to_ss',
               'to_st', 'to_bint', 'to_double', 'to_float', 'to_ucs4', 'to_cplx', 'obj_to_dbl', 'obj_to_int'):
